@@ -22,6 +22,7 @@ class Speller:
         self.memo = {}
         self.style = style
         self.guard = "FILE_H"
+        self.syms = []
 
     def ident(self, w, first=LOW, rest=LOW + string.digits + "_"):
         for _ in range(100):
@@ -92,6 +93,30 @@ class Speller:
         w, n = it["w"], it.get("n", 0)
         if s in ("v", "p", "f", "g", "m", "fld", "tag"):
             return self.named(s, w, n)
+        if s == "sym":
+            return self.syms[n - 1]
+        if s == "sp":
+            return " " * w
+        if s == "stars":
+            return "*" * w
+        if s == "hfile":
+            return self.ident(max(w - 2, 1), LOW + string.digits, LOW + string.digits + "_-.")[: max(w - 2, 1)] + (".c" if w >= 3 else "")
+        if s == "login":
+            key = ("login", w)
+            if key not in self.memo:
+                self.memo[key] = self.ident(w, LOW, LOW + string.digits + "-_")
+            return self.memo[key]
+        if s == "domain":
+            key = ("domain", w)
+            if key not in self.memo:
+                base = self.ident(max(w - 3, 1), LOW, LOW + string.digits + "-")
+                self.memo[key] = (base + "." + "fr")[:w] if w >= 4 else base[:w]
+                if len(self.memo[key]) < w:
+                    self.memo[key] = self.memo[key] + "x" * (w - len(self.memo[key]))
+            return self.memo[key]
+        if s == "date":
+            r = self.r
+            return f"{r.randint(1970, 2099):04d}/{r.randint(0, 99):02d}/{r.randint(0, 99):02d} {r.randint(0, 99):02d}:{r.randint(0, 99):02d}:{r.randint(0, 99):02d}"
         if s in ("vbad", "fbad"):
             key = (s, w, n)
             if key not in self.memo:
